@@ -642,6 +642,9 @@ func c16Gen(r *Rng, tier string) []string {
 			vc["credentialSubject"] = sub
 			// NumericDate carries whole seconds in UTC
 			vc["issuanceDate"] = "2010-01-01T19:23:24Z"
+			if r.N(6) == 0 {
+				delete(vc, "issuanceDate") // admitted with validation off: the JWT form then has no nbf / iat
+			}
 			if _, ok := vc["expirationDate"]; ok {
 				vc["expirationDate"] = "2030-01-01T19:23:24Z"
 			}
